@@ -258,6 +258,17 @@ def run(ctx):
                 hist["forced: " + label.split(" ")[0]] += 1
                 hist["forced events honoured"] += sum(1 for l in log if not l.endswith("TIMEOUT"))
                 hist["forced events timed out"] += sum(1 for l in log if l.endswith("TIMEOUT"))
+                # second clause of the schedule theorem, observed: every worker looked at all its file patches of the
+                # patches up to and including the one the push stopped at (the log has one line per file patch looked at)
+                F = len(l3common.applied_patches(r))
+                seen = collections.Counter(l.replace(" TIMEOUT", "") for l in log if l.startswith("apply "))
+                need = collections.Counter(event(fp) for fp in fps if fp[0] <= F)
+                missing = [e for e in need if seen[e] < need[e]]
+                hist["forced: file patches <= final patch all looked at"] += 0 if missing else 1
+                if missing and r == r1:
+                    probs.append({"threads": th, "schedule": sched, "label": label, "missing_file_patches": missing[:5], "final_patch": F,
+                                  "note": "a worker did not get to a file patch of a patch <= the final one"})
+                    break
                 if r != r1:
                     a, b = r1.split(" | "), r.split(" | ")
                     probs.append({"threads": th, "schedule": sched, "label": label, "save_order": save_order,
